@@ -1,6 +1,7 @@
 package rules
 
 import (
+	"os"
 	"fmt"
 	"go/constant"
 	"go/token"
@@ -358,6 +359,7 @@ func checkC01(c *Ctx) {
 	c.Rule("C01.F9", "an arithmetic node narrower than XLEN is not stored into an x-register without SignExtend")
 	c.Rule("C01.F10", "in Lsh/Rsh/Div and the Sub/Mod/SignedDiv/SignedMod/RshA gadgets the rs1 operand comes first when the other operand is rs2 or an immediate")
 	c.Rule("C01.F11", "W-twin agreement (sibling cross-check): every RV64 entry that the ISA defines as the 32-bit form of an RV32 instruction (mnemonic + 'w', or an atomic '.w') computes, on the path where no register is x0, the same term as its RV32 twin - same operators, operand roles, operation widths and constants - apart from the final sign extension to 64 bits, the 64-bit register-file width and the width of address registers")
+	c.Rule("C01.sem", "reference semantics: for every table entry the lifted effect terms (path without x0 operands), in a canonical form invariant under truncation-transparent widths, operand order of commutative operators, the comparison-helper family and transparent sign/width adapters, equal the canonical form of the instruction's definition in the unprivileged ISA manual (operator, operand roles, comparison polarity, branch targets, access widths, sign extension of loads and word forms, jalr bit 0, mulh/mulhsu/mulhu products, AMO min/max selection)")
 	c.Rule("C01.glue", "Parser.Parse lifts with validEffects(newInstruction(a, bs, matched)) of the matched entry; validEffects calls the entry's effects closure on that instruction and only drops nil effects")
 
 	ri := loadRiscv(c)
@@ -369,6 +371,8 @@ func checkC01(c *Ctx) {
 	if !k.haveOps || !k.haveModels {
 		return
 	}
+	ns := checkSemantics(c, ri, k)
+	c.RequireCount("C01.sem table entries compared with the reference semantics", ns, 150)
 	in := ri.T.In
 	totalPaths := 0
 	var sampleTemplates []string
@@ -596,6 +600,10 @@ func checkC01(c *Ctx) {
 		c.Oblige("C01.F8", key, pos, f8 == "", f8)
 		c.Oblige("C01.F9", key, pos, f9 == "", f9)
 		c.Oblige("C01.F10", key, pos, f10 == "", f10)
+		if os.Getenv("MLTLINT_DEBUG") == "templates" && len(f.Paths) > 0 {
+			last := f.Paths[len(f.Paths)-1]
+			fmt.Fprintf(os.Stderr, "TEMPLATE %s [%s] => %s\n", key, condStr(last.Conds), absint.Render(last.Result))
+		}
 		if len(sampleTemplates) < 6 && len(f.Paths) > 0 {
 			last := f.Paths[len(f.Paths)-1]
 			sampleTemplates = append(sampleTemplates, key+" ["+condStr(last.Conds)+"] => "+truncate(absint.Render(last.Result), 400))
